@@ -1110,17 +1110,15 @@ expand_manifests(string &expr, bool expand_undefined,
           // tokens of its own: keep it from running into its neighbors where
           // no white space separates them ("M." with M defined as 1 is not
           // the number 1., "-M" with M defined as -1 is not --1).
-          char before = (q > 0) ? expr[q - 1] : ' ';
-          char after = (p < expr.size()) ? expr[p] : ' ';
           if (result.empty()) {
-            if (CPPManifest::would_paste(before, after)) {
+            if (CPPManifest::would_paste(expr, q, expr, p)) {
               result = " ";
             }
           } else {
-            if (CPPManifest::would_paste(before, result[0])) {
+            if (CPPManifest::would_paste(expr, q, result, 0)) {
               result.insert(0, 1, ' ');
             }
-            if (CPPManifest::would_paste(result[result.size() - 1], after)) {
+            if (CPPManifest::would_paste(result, result.size(), expr, p)) {
               result += ' ';
             }
           }
